@@ -301,6 +301,36 @@ def f19():
     return True, "ran"
 
 
+@trigger("F10b", ["C08"])
+def f10b():
+    """household reconstruction demand with three rebuilding sectors on a table with a single final-demand column"""
+    tb = base_table(m=1, n=4, k=1, seed=5)
+    cfg = base_cfg()
+    ev = reb_event(tb, cfg, frac=0.05, sectors={"agri": 0.5, "build": 0.3, "serv": 0.2}, house={"rA|gov": 7.0})
+    sim = scen.build_sim(mk_sc(tb, cfg, [ev]))
+    tr = sim._event_tracking[0]
+    tot = float(tr.distributed_reb_dem_house.to_numpy().sum())
+    ok = abs(tot - 7.0) <= 1e-9 * 7.0
+    return ok, f"household demand created {tot}, household impact x factor = 7.0"
+
+
+@trigger("F13", ["C08", "C11", "C20"])
+def f13():
+    """rebuilding event whose affected industry buys nothing from its rebuilding sector (known finding)"""
+    tb = base_table()
+    regs, secs, cats = scen.labels(tb)
+    n = tb["n"]
+    j = 0  # rA|agri
+    si = secs.index("build")
+    for r in range(tb["m"]):
+        tb["Z"][r * n + si][j] = 0.0
+    cfg = base_cfg()
+    ev = reb_event(tb, cfg, frac=0.05, occ=2, dur=1, tau=5)
+    sim = run_loop(mk_sc(tb, cfg, [ev], T=8))
+    rec = sim.rebuild_demand.to_numpy()[: sim.n_temporal_units_simulated]
+    return bool(np.isfinite(rec).all()), "rebuild demand finite"
+
+
 def run_all(props=None, only=None):
     res = {}
     for fid, t in TRIGGERS.items():
